@@ -13,10 +13,16 @@ BOUNDARY_PROTOCOLS = [4, 5, 47, 107, 108, 210, 315, 335, 338, 339, 340, 384,
 REAL = ['minecraft.networking.connection (Connection, NetworkingThread, '
         'reactors)', 'minecraft.networking.packets.* (framing, zlib, codecs '
         'touched)', 'minecraft.networking.encryption', 'zlib', 'cryptography']
-STUB = ['thread scheduling (real OS threads, baton passing)', 'RLock',
-        'socket / select modules as seen by connection.py', 'TCP transport',
-        'clock (timeit.default_timer)', 'os.urandom as seen by encryption.py',
-        'Minecraft server (independent implementation, sim/server.py)']
+STUB = ['thread scheduling (real OS threads, baton passing)',
+        'every reference a minecraft.* module holds to socket / select '
+        '(incl. poll) / time / timeit / threading (RLock, Lock, Event, '
+        'Condition, Semaphore, Timer, Thread subclasses): sim/stdlib.py',
+        'TCP transport (Linux semantics, selftest/socket_conformance.py)',
+        'clock (virtual, discrete-event)',
+        'os.urandom as seen by encryption.py',
+        'Minecraft server (independent implementation, sim/server.py)',
+        'Yggdrasil / session service (scripted, behind a real '
+        'requests.Session)']
 
 
 def pick_proto(rng, supported, boundary_weight=0.6):
